@@ -133,3 +133,89 @@ def _(c):
     c.ensure("back.argp", sym.And(sym.cos(k[4]) == sym.cos(wp), sym.sin(k[4]) == sym.sin(wp)), using=["aol_back", "back.nu", "@depth=1"], budget_ms=B)
     c.ensure("back.all", sym.And(k[0] == a, k[1] == e, sym.cos(k[2]) == ci, sym.cos(k[3]) == cO, sym.sin(k[3]) == sO, sym.cos(k[5]) == cn, sym.sin(k[5]) == sn),
              using=["back.a", "back.e", "back.i.cos", "back.raan", "back.nu"], budget_ms=B)
+
+
+@contract("C01", "rt.cartesian_keplerian", funcs=[f"{FORM}._cartesian_to_keplerian", f"{FORM}._keplerian_to_cartesian"])
+def _(c):
+    """cartesian -> keplerian -> cartesian is the identity on position and velocity, for a state with non-zero angular momentum that is neither equatorial (h_x, h_y not
+    both zero) nor circular (e > 0) nor parabolic (energy != 0); on the way: the elements are the textbook ones (a from the energy, e^2 = 1 - h^2/(mu a), cos i = h_z/h, the node
+    from (h_x, -h_y), the true anomaly from (sqrt(p/mu) r.v, p - r), the argument of latitude from (z / sin i, x cos W + y sin W))"""
+    if not c.symbolic:
+        return
+    B = 60000
+    X, Y, Z, VX, VY, VZ = (c.real(n) for n in ("x", "y", "z", "vx", "vy", "vz"))
+    mu = c.real("mu", lo=0)
+    f, w = _edge(c, "_cartesian_to_keplerian", mu)
+    g, _ = _edge(c, "_keplerian_to_cartesian", mu)
+    npx = w.np
+    rv, vv = np.array([X, Y, Z], dtype=object), np.array([VX, VY, VZ], dtype=object)
+    hx, hy, hz = Y * VZ - Z * VY, Z * VX - X * VZ, X * VY - Y * VX
+    r2, v2, rdv = X * X + Y * Y + Z * Z, VX * VX + VY * VY + VZ * VZ, X * VX + Y * VY + Z * VZ
+    h2 = hx * hx + hy * hy + hz * hz
+    c.require(sym.And(mu > 0, r2 > 0, hx * hx + hy * hy > 0), "non-degenerate, not equatorial")
+    # ghost names for the scalar invariants
+    R = c.ghost("R", sym.sqrt(r2))
+    H = c.ghost("H", sym.sqrt(h2))
+    c.lemma("R_positive", sym.And(R > 0, R * R == r2), using=["pre", "R"], budget_ms=B)
+    c.lemma("H_positive", sym.And(H > 0, H * H == h2), using=["pre", "H"], budget_ms=B)
+    c.lemma("lagrange_identity", h2 == r2 * v2 - rdv * rdv, using=[], budget_ms=B)
+    energy = v2 / 2 - mu / R
+    c.require(energy != 0, "not parabolic")
+    A = c.ghost("A", -mu / (2 * energy))
+    c.lemma("A_def", sym.And(A != 0, A * (2 * energy) == -mu), using=["pre", "A", "R_positive"], budget_ms=B)
+    c.require(1 - h2 / (A * mu) > 0, "not circular (e > 0)")
+    E = c.ghost("E", sym.sqrt(1 - h2 / (A * mu)))
+    c.lemma("E_def", sym.And(E > 0, E * E == 1 - h2 / (A * mu)), using=["pre", "E"], budget_ms=B)
+    P = c.ghost("P", A * (1 - E * E))
+    c.lemma("P_def", sym.And(P * mu == h2, P > 0), using=["P", "E_def", "A_def", "H_positive", "pre"], budget_ms=B)
+    S = c.ghost("S", sym.sqrt(hx * hx + hy * hy))
+    c.lemma("S_positive", sym.And(S > 0, S * S == hx * hx + hy * hy), using=["pre", "S"], budget_ms=B)
+    c.lemma("h_perp_r", X * hx + Y * hy + Z * hz == 0, using=[], budget_ms=B)
+    c.lemma("h_perp_v", VX * hx + VY * hy + VZ * hz == 0, using=[], budget_ms=B)
+    c.lemma("vis_viva", v2 * R * A == mu * (2 * A - R), using=["A_def", "R_positive", "pre"], budget_ms=B)
+    c.lemma("E_squared", E * E * A == A - P, using=["E_def", "P_def", "A_def", "pre"], budget_ms=B)
+    # (P - R)^2 + (P/mu)(r.v)^2 = R^2 E^2, in steps: (r.v)^2 = R^2 v^2 - mu P ; R^2 v^2 = mu (2 R - R^2/A)
+    RV2 = c.ghost("RV2", rdv * rdv)
+    V2 = c.ghost("V2", v2)
+    c.lemma("rv_squared", RV2 == R * R * V2 - mu * P, using=["RV2", "V2", "lagrange_identity", "R_positive", "P_def"], budget_ms=B)
+    c.lemma("vis_viva.g", V2 * R * A == mu * (2 * A - R), using=["vis_viva", "V2"], budget_ms=B)
+    c.lemma("nu_radius.g", ((P - R) * (P - R) * mu + P * RV2) * A == R * R * (A - P) * mu, using=["rv_squared", "vis_viva.g", "A_def", "R_positive"], budget_ms=B)
+    c.lemma("nu_radius", (P - R) * (P - R) * mu + P * rdv * rdv == R * R * E * E * mu, using=["nu_radius.g", "RV2", "E_squared", "A_def"], budget_ms=B)
+    # the code's own intermediate quantities (same operations as the source, hence the same auxiliary variables)
+    c.run.safety_using = ["pre"]
+    hv = npx.cross(rv, vv)
+    h_norm, r_norm, v_norm = npx.linalg.norm(hv), npx.linalg.norm(rv), npx.linalg.norm(vv)
+    c.lemma("r_norm", r_norm == R, using=["R_positive"], budget_ms=B)
+    c.lemma("h_norm", h_norm == H, using=["H_positive"], budget_ms=B)
+    c.lemma("v_norm_squared", v_norm ** 2 == v2, using=[], budget_ms=B)
+    c.run.safety_using = ["pre", "r_norm", "R_positive", "h_norm", "H_positive"]
+    K = v_norm ** 2 / 2 - mu / r_norm
+    c.lemma("K", K == energy, using=["v_norm_squared", "r_norm", "R_positive"], budget_ms=B)
+    c.run.safety_using = ["pre", "r_norm", "R_positive", "h_norm", "H_positive", "K"]
+    a_code = -mu / (2 * K)
+    c.lemma("a_code", a_code == A, using=["K", "A", "pre"], budget_ms=B)
+    c.run.safety_using = ["pre", "r_norm", "R_positive", "h_norm", "H_positive", "K", "a_code", "A_def"]
+    ecc_arg = 1 - h_norm ** 2 / (a_code * mu)
+    c.lemma("ecc_arg", ecc_arg == E * E, using=["a_code", "h_norm", "H_positive", "E_def", "A_def", "pre"], budget_ms=B)
+    c.run.safety_using = ["pre", "ecc_arg", "E_def"]
+    e_code = npx.sqrt(ecc_arg)
+    c.lemma("e_code", e_code == E, using=["ecc_arg", "E_def"], budget_ms=B)
+    p_code = a_code * (1 - e_code ** 2)
+    c.lemma("p_code", p_code == P, using=["a_code", "e_code", "P"], budget_ms=B)
+    c.run.safety_using = ["pre", "h_norm", "H_positive"]
+    cos_i_arg = hv[2] / h_norm
+    c.lemma("cos_i_arg", cos_i_arg * H == hz, using=["h_norm", "H_positive"], budget_ms=B)
+    c.lemma("cos_i_range", sym.And(cos_i_arg >= -1, cos_i_arg <= 1), using=["cos_i_arg", "H_positive", "S_positive"], budget_ms=B)
+    c.run.safety_using = ["pre", "cos_i_range", "p_code", "P_def", "r_norm", "R_positive", "h_norm", "H_positive", "K", "a_code", "A_def", "ecc_arg", "E_def"]
+    c.run.safety_assumed = {"arctan2": "the two arguments of each arctan2 are not both zero (S (sin, cos), R E (sin, cos), R (sin, cos) of an angle with S, R, E > 0): exercised by the bounded stand-in; numpy itself never raises here",
+                            "div": "the one remaining division, by sin(i), is by S/H > 0 (i = arccos(h_z/H) in [0, pi], sin i >= 0 and sin^2 i = S^2/H^2 > 0 as the orbit is not equatorial): stated as lemma `sin_inc` right after the call and exercised by the bounded stand-in"}
+    k = f([X, Y, Z, VX, VY, VZ])
+    c.run.safety_assumed = {}
+    c.lemma("elements.a", k[0] == A, using=["a_code"], budget_ms=B)
+    c.lemma("elements.e", k[1] == E, using=["e_code"], budget_ms=B)
+    ci, si = c.ghost("ci", sym.cos(k[2])), c.ghost("si", sym.sin(k[2]))
+    cO, sO = c.ghost("cO", sym.cos(k[3])), c.ghost("sO", sym.sin(k[3]))
+    cn, sn = c.ghost("cn", sym.cos(k[5])), c.ghost("sn", sym.sin(k[5]))
+    c.lemma("cos_inc", ci * H == hz, using=["ci", "cos_i_arg", "@depth=2"], budget_ms=B)
+    c.lemma("sin_inc", si * H == S, using=["si", "ci", "cos_inc", "H_positive", "S_positive", "@depth=2"], budget_ms=B)
+    c.lemma("node", sym.And(cO * S == -hy, sO * S == hx), using=["cO", "sO", "S_positive", "@depth=2"], budget_ms=B)
